@@ -398,31 +398,64 @@ Section Proofs.
   Qed.
 
   (* ---- one call: MeasureClockOffsetIP ---- *)
-  Definition from_exchange (c : config) (envs : list xenv) (off ts : Z) : Prop :=
-    exists stk e i r, In e envs /\ recv_loop open (make_request c stk e) 0 0 (e_evs e) = LAccept i r /\
-                      off = r_off r /\ ts = r_crx r.
+
+  (* the client state after one exchange, and after a list of exchanges: the
+     state in which the request of the next exchange is built *)
+  Definition next_state (c : config) (st : cstate) (e : xenv) : cstate :=
+    match recv_loop open (make_request c st e) 0 0 (e_evs e) with
+    | LAccept _ r => update c st e r
+    | _ => st
+    end.
+  Fixpoint state_after (c : config) (st : cstate) (pre : list xenv) : cstate :=
+    match pre with
+    | [] => st
+    | e :: r => state_after c (next_state c st e) r
+    end.
+
+  (* [accepted_at c st envs off ts lrs]: the offset and timestamp are those of an
+     exchange e of the call, accepted by the receive loop for THE request the
+     client built in the state it had reached after the exchanges before e; the
+     pair (request, outcome) is the one the run recorded *)
+  Definition accepted_at (c : config) (st : cstate) (envs : list xenv) (off ts : Z)
+             (lrs : list (request * loop_result)) : Prop :=
+    exists pre e post k r,
+      envs = pre ++ e :: post /\
+      recv_loop open (make_request c (state_after c st pre) e) 0 0 (e_evs e) = LAccept k r /\
+      off = r_off r /\ ts = r_crx r /\
+      In (make_request c (state_after c st pre) e, LAccept k r) lrs.
+
+  Lemma accepted_at_cons : forall c st e rest off ts l lr,
+    accepted_at c (next_state c st e) rest off ts l ->
+    accepted_at c st (e :: rest) off ts ((make_request c st e, lr) :: l).
+  Proof.
+    intros c st e rest off ts l lr (pre & e' & post & k & r & A & B & C & D & E).
+    exists (e :: pre), e', post, k, r. subst rest. cbn [state_after app]. repeat split; auto. right. exact E.
+  Qed.
 
   Lemma call_loop_sound : forall c envs st i nerr acc st' off ts lrs,
     call_loop open c st envs i nerr acc = (st', COffset off ts, lrs) ->
-    acc = Some (COffset off ts) \/ (acc = None /\ off = 0 /\ ts = 0) \/ from_exchange c envs off ts.
+    acc = Some (COffset off ts) \/ (acc = None /\ off = 0 /\ ts = 0) \/ accepted_at c st envs off ts lrs.
   Proof.
     intros c envs. induction envs as [|e rest IH]; intros st i nerr acc st' off ts lrs H; simpl in H.
     - destruct acc as [cr|]; inversion H; subst; auto.
-    - destruct (recv_loop open (make_request c st e) 0 0 (e_evs e)) as [k r|k er|k|k|] eqn:EL.
+    - assert (Hhead : forall k r l, recv_loop open (make_request c st e) 0 0 (e_evs e) = LAccept k r ->
+                      accepted_at c st (e :: rest) (r_off r) (r_crx r) ((make_request c st e, LAccept k r) :: l)).
+      { intros k r l EL. exists [], e, rest, k, r. cbn [state_after app]. repeat split; auto. left. reflexivity. }
+      destruct (recv_loop open (make_request c st e) 0 0 (e_evs e)) as [k r|k er|k|k|] eqn:EL.
       + destruct (in_interleaved_mode c (update c st e r)).
-        * inversion H; subst. right. right. exists st, e, k, r. simpl. auto.
+        * inversion H; subst. right. right. apply Hhead. reflexivity.
         * destruct (call_loop open c (update c st e r) rest (S i) nerr (Some (COffset (r_off r) (r_crx r))))
             as [[s2 cr] l] eqn:EC. inversion H; subst.
           apply IH in EC. destruct EC as [EC|[EC|EC]].
-          -- inversion EC; subst. right. right. exists st, e, k, r. simpl. auto.
+          -- inversion EC; subst. right. right. apply Hhead. reflexivity.
           -- destruct EC as [EC _]. discriminate.
-          -- right. right. destruct EC as (stk & e' & i' & r' & A & B). exists stk, e', i', r'. simpl. tauto.
+          -- right. right. apply accepted_at_cons. unfold next_state. rewrite EL. exact EC.
       + destruct (call_loop open c st rest (S i) (S nerr) (if (nerr =? i)%nat then Some (CError er) else acc))
           as [[s2 cr] l] eqn:EC. inversion H; subst.
         apply IH in EC. destruct EC as [EC|[EC|EC]].
         * destruct (nerr =? i)%nat; [discriminate|]. auto.
         * destruct EC as [EC1 EC2]. destruct (nerr =? i)%nat; [discriminate|]. auto.
-        * right. right. destruct EC as (stk & e' & i' & r' & A & B). exists stk, e', i', r'. simpl. tauto.
+        * right. right. apply accepted_at_cons. unfold next_state. rewrite EL. exact EC.
       + inversion H.
       + inversion H.
       + inversion H.
@@ -437,45 +470,53 @@ Section Proofs.
   Theorem call_sound : forall c st envs st' off ts lrs,
     envs <> [] ->
     call open c st envs = (st', COffset off ts, lrs) ->
-    from_exchange c envs off ts.
+    accepted_at c st (firstn (num_exchanges c) envs) off ts lrs.
   Proof.
     intros c st envs st' off ts lrs HE H. unfold call in H.
-    assert (Hsub : forall off ts, from_exchange c (firstn (num_exchanges c) envs) off ts -> from_exchange c envs off ts).
-    { intros o t (stk & e & i & r & A & B). exists stk, e, i, r. split; [eapply In_firstn; eauto | exact B]. }
-    apply Hsub.
     destruct envs as [|e rest]; [contradiction|].
     assert (Hf : exists rest', firstn (num_exchanges c) (e :: rest) = e :: rest').
     { unfold num_exchanges. destruct (c_imode c); simpl; eauto. }
-    destruct Hf as [rest' Hf]. rewrite Hf in *. clear Hf Hsub.
+    destruct Hf as [rest' Hf]. rewrite Hf in *. clear Hf.
     simpl in H.
+    assert (Hhead : forall k r l, recv_loop open (make_request c st e) 0 0 (e_evs e) = LAccept k r ->
+                    accepted_at c st (e :: rest') (r_off r) (r_crx r) ((make_request c st e, LAccept k r) :: l)).
+    { intros k r l EL. exists [], e, rest', k, r. cbn [state_after app]. repeat split; auto. left. reflexivity. }
     destruct (recv_loop open (make_request c st e) 0 0 (e_evs e)) as [k r|k er|k|k|] eqn:EL; try (inversion H; fail).
     - destruct (in_interleaved_mode c (update c st e r)).
-      + inversion H; subst. exists st, e, k, r. simpl. auto.
+      + inversion H; subst. apply Hhead. reflexivity.
       + destruct (call_loop open c (update c st e r) rest' 1 0 (Some (COffset (r_off r) (r_crx r)))) as [[s2 cr] l] eqn:EC.
         inversion H; subst. apply call_loop_sound in EC. destruct EC as [EC|[EC|EC]].
-        * inversion EC; subst. exists st, e, k, r. simpl. auto.
+        * inversion EC; subst. apply Hhead. reflexivity.
         * destruct EC as [EC _]. discriminate.
-        * destruct EC as (stk & e' & i' & r' & A & B). exists stk, e', i', r'. simpl. tauto.
+        * apply accepted_at_cons. unfold next_state. rewrite EL. exact EC.
     - simpl in H.
       destruct (call_loop open c st rest' 1 1 (Some (CError er))) as [[s2 cr] l] eqn:EC.
       inversion H; subst. apply call_loop_sound in EC. destruct EC as [EC|[EC|EC]].
       + discriminate.
       + destruct EC as [EC _]. discriminate.
-      + destruct EC as (stk & e' & i' & r' & A & B). exists stk, e', i', r'. simpl. tauto.
+      + apply accepted_at_cons. unfold next_state. rewrite EL. exact EC.
   Qed.
 
-  (* an offset reported by a call is the offset of a datagram that was
-     genuine for the request outstanding when it arrived *)
+  (* an offset reported by a call is the offset of a datagram that was genuine
+     for the request outstanding when it arrived - the request built in the
+     state the client had actually reached (state_after) - and the exchange is
+     the one the run recorded *)
   Theorem call_offset_genuine : forall c st envs st' off ts lrs,
     envs <> [] ->
     call open c st envs = (st', COffset off ts, lrs) ->
-    exists stk e g h i, In e envs /\ nth_error (e_evs e) i = Some (EvDgram g) /\ (i <= 1)%nat /\
-      genuine (make_request c stk e) g h /\ off = r_off (result_of (make_request c stk e) g h).
+    exists pre e post g h i,
+      firstn (num_exchanges c) envs = pre ++ e :: post /\
+      let q := make_request c (state_after c st pre) e in
+      nth_error (e_evs e) i = Some (EvDgram g) /\ (i <= 1)%nat /\
+      genuine q g h /\ clock_sane q g h /\ off = r_off (result_of q g h) /\ ts = r_crx (result_of q g h) /\
+      In (q, LAccept i (result_of q g h)) lrs.
   Proof.
     intros c st envs st' off ts lrs HE H. apply call_sound in H; auto.
-    destruct H as (stk & e & i & r & A & B & C & D). apply recv_loop_accept in B.
-    destruct B as (Hi & g & h & B1 & B2 & B3 & B4 & _). exists stk, e, g, h, i. subst.
-    split; [exact A|]. split; [exact B1|]. split; [exact Hi|]. split; [exact B2|reflexivity].
+    destruct H as (pre & e & post & i & r & A & B & C & D & E). pose proof B as B'. apply recv_loop_accept in B.
+    destruct B as (Hi & g & h & B1 & B2 & B3 & B4 & _). exists pre, e, post, g, h, i. subst r.
+    split; [exact A|]. cbv zeta.
+    split; [exact B1|]. split; [exact Hi|]. split; [exact B2|]. split; [exact B3|].
+    split; [exact C|]. split; [exact D|exact E].
   Qed.
 
   (* MeasureClockOffsetSCION reports an offset only if its client did *)
@@ -485,8 +526,12 @@ Section Proofs.
   Theorem scion_call_offset_genuine : forall c st envs st' cr lrs off ts,
     envs <> [] ->
     call open c st envs = (st', cr, lrs) -> scion_return cr = COffset off ts ->
-    exists stk e g h i, In e envs /\ nth_error (e_evs e) i = Some (EvDgram g) /\ (i <= 1)%nat /\
-      genuine (make_request c stk e) g h /\ off = r_off (result_of (make_request c stk e) g h).
+    exists pre e post g h i,
+      firstn (num_exchanges c) envs = pre ++ e :: post /\
+      let q := make_request c (state_after c st pre) e in
+      nth_error (e_evs e) i = Some (EvDgram g) /\ (i <= 1)%nat /\
+      genuine q g h /\ clock_sane q g h /\ off = r_off (result_of q g h) /\ ts = r_crx (result_of q g h) /\
+      In (q, LAccept i (result_of q g h)) lrs.
   Proof.
     intros c st envs st' cr lrs off ts HE HC HR. apply scion_return_offset in HR. subst cr.
     eapply call_offset_genuine; eauto.
@@ -500,28 +545,105 @@ Section Proofs.
   Definition calls_nonempty (ops : list hop) : Prop :=
     forall envs, In (HCall envs) ops -> envs <> [].
 
+  (* the state in which a call starts (MeasureClockOffsetSCION resets a client that is not in interleaved mode) *)
+  Definition call_entry (c : config) (st : cstate) : cstate :=
+    if c_scion c && negb (in_interleaved_mode c st) then reset_state st else st.
+  (* the state after a list of operations *)
+  Fixpoint hist_state (c : config) (st : cstate) (ops : list hop) : cstate :=
+    match ops with
+    | [] => st
+    | HCall envs :: r => hist_state c (fst (fst (call open c (call_entry c st) envs))) r
+    | HReset :: r => hist_state c (reset_state st) r
+    end.
+
   Theorem history_offsets_genuine : forall c ops st off ts lrs,
     calls_nonempty ops ->
     In (COffset off ts, lrs) (history open c st ops) ->
-    exists envs stk e g h i, In (HCall envs) ops /\ In e envs /\
+    exists opre envs opost pre e post g h i,
+      ops = opre ++ HCall envs :: opost /\
+      firstn (num_exchanges c) envs = pre ++ e :: post /\
+      let q := make_request c (state_after c (call_entry c (hist_state c st opre)) pre) e in
       nth_error (e_evs e) i = Some (EvDgram g) /\ (i <= 1)%nat /\
-      genuine (make_request c stk e) g h /\ off = r_off (result_of (make_request c stk e) g h).
+      genuine q g h /\ clock_sane q g h /\ off = r_off (result_of q g h) /\ ts = r_crx (result_of q g h) /\
+      In (q, LAccept i (result_of q g h)) lrs.
   Proof.
     intros c ops. induction ops as [|op rest IH]; intros st off ts lrs HN H; simpl in H; [contradiction|].
     assert (HN' : calls_nonempty rest).
     { intros envs Hin. apply HN. right. exact Hin. }
     destruct op as [envs|].
-    - remember (if c_scion c && negb (in_interleaved_mode c st) then reset_state st else st) as st0.
-      destruct (call open c st0 envs) as [[st' cr] l] eqn:EC. simpl in H. destruct H as [H|H].
+    - fold (call_entry c st) in H.
+      destruct (call open c (call_entry c st) envs) as [[st' cr] l] eqn:EC. simpl in H. destruct H as [H|H].
       + inversion H; subst. apply call_offset_genuine in EC.
-        * destruct EC as (stk & e & g & h & i & A & B & C & D & E).
-          exists envs, stk, e, g, h, i. split; [left; reflexivity|]. split; [exact A|]. split; [exact B|].
-          split; [exact C|]. split; [exact D|exact E].
+        * destruct EC as (pre & e & post & g & h & i & A & B).
+          exists [], envs, rest, pre, e, post, g, h, i. split; [reflexivity|]. split; [exact A|]. exact B.
         * apply HN. left. reflexivity.
-      + apply IH in H; auto. destruct H as (envs' & stk & e & g & h & i & A & B).
-        exists envs', stk, e, g, h, i. split; [right; exact A | exact B].
-    - apply IH in H; auto. destruct H as (envs' & stk & e & g & h & i & A & B).
-      exists envs', stk, e, g, h, i. split; [right; exact A | exact B].
+      + apply IH in H; auto. destruct H as (opre & envs' & opost & pre & e & post & g & h & i & A & B & C).
+        exists (HCall envs :: opre), envs', opost, pre, e, post, g, h, i.
+        split; [subst rest; reflexivity|]. split; [exact B|].
+        cbn [hist_state]. rewrite EC. exact C.
+    - apply IH in H; auto. destruct H as (opre & envs' & opost & pre & e & post & g & h & i & A & B & C).
+      exists (HReset :: opre), envs', opost, pre, e, post, g, h, i.
+      split; [subst rest; reflexivity|]. split; [exact B|]. exact C.
+  Qed.
+
+  (* ---- where the interleaved-mode state comes from ---- *)
+  (* the states a client can be in: the initial one, after a mode reset, after an
+     exchange accepted for the request built in such a state *)
+  Inductive reachable (c : config) : cstate -> Prop :=
+  | reach_init : reachable c cstate0
+  | reach_reset : forall st, reachable c st -> reachable c (reset_state st)
+  | reach_accept : forall st e k r, reachable c st ->
+      recv_loop open (make_request c st e) 0 0 (e_evs e) = LAccept k r -> reachable c (update c st e r).
+
+  Lemma reachable_next : forall c st e, reachable c st -> reachable c (next_state c st e).
+  Proof.
+    intros c st e H. unfold next_state.
+    destruct (recv_loop open (make_request c st e) 0 0 (e_evs e)) eqn:EL; auto. eapply reach_accept; eauto.
+  Qed.
+  Lemma reachable_after : forall c pre st, reachable c st -> reachable c (state_after c st pre).
+  Proof. intros c pre. induction pre as [|e r IH]; intros st H; simpl; auto. apply IH. apply reachable_next. exact H. Qed.
+  Lemma reachable_entry : forall c st, reachable c st -> reachable c (call_entry c st).
+  Proof. intros c st H. unfold call_entry. destruct (c_scion c && negb (in_interleaved_mode c st)); auto. apply reach_reset; exact H. Qed.
+
+  Lemma call_loop_reachable : forall c envs st i nerr acc, reachable c st ->
+    reachable c (fst (fst (call_loop open c st envs i nerr acc))).
+  Proof.
+    intros c envs. induction envs as [|e rest IH]; intros st i nerr acc H; simpl; [exact H|].
+    destruct (recv_loop open (make_request c st e) 0 0 (e_evs e)) as [k r|k er|k|k|] eqn:EL; simpl; auto.
+    - assert (HR : reachable c (update c st e r)) by (eapply reach_accept; eauto).
+      destruct (in_interleaved_mode c (update c st e r)); simpl; auto.
+      specialize (IH (update c st e r) (S i) nerr (Some (COffset (r_off r) (r_crx r))) HR).
+      destruct (call_loop open c (update c st e r) rest (S i) nerr (Some (COffset (r_off r) (r_crx r)))) as [[s2 cr] l]. exact IH.
+    - specialize (IH st (S i) (S nerr) (if (nerr =? i)%nat then Some (CError er) else acc) H).
+      destruct (call_loop open c st rest (S i) (S nerr) (if (nerr =? i)%nat then Some (CError er) else acc)) as [[s2 cr] l]. exact IH.
+  Qed.
+  Lemma reachable_hist : forall c ops st, reachable c st -> reachable c (hist_state c st ops).
+  Proof.
+    intros c ops. induction ops as [|op r IH]; intros st H; simpl; auto. destruct op as [envs|].
+    - apply IH. unfold call. apply call_loop_reachable. apply reachable_entry. exact H.
+    - apply IH. apply reach_reset. exact H.
+  Qed.
+
+  (* what an interleaved request quotes - c.prev: the server receive timestamp and
+     the client's two stamps - was recorded from a datagram that was genuine for
+     the request built in an (again reachable) state, in an exchange the receive
+     loop accepted: never from a skipped or rejected datagram *)
+  Theorem state_provenance : forall c st, reachable c st -> s_has st = true ->
+    exists st0 e g h k, reachable c st0 /\
+      let q := make_request c st0 e in
+      recv_loop open q 0 0 (e_evs e) = LAccept k (result_of q g h) /\
+      nth_error (e_evs e) k = Some (EvDgram g) /\ genuine q g h /\ clock_sane q g h /\
+      s_srx st = h_rx h /\ s_ctx st = time64_of_time (e_ctx1 e) /\ s_crx st = time64_of_time (crx_of g) /\
+      s_il st = is_interleaved q h.
+  Proof.
+    intros c st H. induction H as [|st H IH|st e k r H IH EL]; intro HS.
+    - discriminate.
+    - discriminate.
+    - unfold update in *. destruct (c_imode c) eqn:EM; [|exact (IH HS)].
+      pose proof EL as EL'. apply recv_loop_accept in EL'. destruct EL' as (_ & g & h & B1 & B2 & B3 & B4 & _).
+      exists st, e, g, h, k. split; [exact H|]. cbv zeta. subst r.
+      split; [exact EL|]. split; [exact B1|]. split; [exact B2|]. split; [exact B3|].
+      unfold result_of. destruct (stamps (make_request c st e) g h) as [[[t0 t1] t2] t3]. cbn. auto.
   Qed.
 
   (* ---- the interleaved request quotes the accepted response ---- *)
